@@ -212,7 +212,11 @@ def _dup_label_goneref(case, triples, out1, out2, sigs):
         return False
     only1 = [x for x in s1 if x not in s2]
     only2 = [x for x in s2 if x not in s1]
-    return all(explained(x, s2) for x in only1) and all(explained(x, s1) for x in only2)
+    # shapes are removed by NAME: when one of two shapes sharing a label is removed (explained as above), the other one goes with it
+    # (C05-DUPLABEL), so a shape printed by one run only is also accepted when a shape with the same label is explained
+    ex1 = {x[0] for x in only1 if explained(x, s2)}
+    ex2 = {x[0] for x in only2 if explained(x, s1)}
+    return bool(ex1 or ex2) and all(x[0] in ex1 for x in only1) and all(x[0] in ex2 for x in only2)
 
 
 def check(case):
